@@ -100,6 +100,7 @@ pub fn cmd_emit(args: &[String]) {
     let prof = match profile.as_str() {
         "safe" => Profile::safe(),
         "wild" => Profile::wild(),
+        "tame" => Profile::tame(),
         _ => Profile::rich(),
     };
     let mut ctx = Ctx::new(&format!("emit{}", shard));
@@ -111,6 +112,9 @@ pub fn cmd_emit(args: &[String]) {
     if shard == 0 {
         for (i, s) in crate::corpus::hir_corpus().into_iter().enumerate() {
             specs.push((900000 + i, s, Cfg { name: "Petstore".into(), derives: vec![], examples: true }));
+        }
+        for (i, s) in crate::corpus::compile_corpus().into_iter().enumerate() {
+            specs.push((910000 + i, s, Cfg { name: "Petstore".into(), derives: vec![], examples: true }));
         }
     }
     for i in 0..n {
@@ -179,5 +183,67 @@ pub fn cmd_emit_canon(args: &[String]) {
     let mut f = std::io::BufWriter::new(std::fs::File::create(out).unwrap());
     for r in &res {
         writeln!(f, "{}", r).unwrap();
+    }
+}
+
+/// `emit-crates --out <dir> --n N --seed S --shard K --profile P`: generate N crates with the real CLI into
+/// <dir>/c<id>/ (src/, examples/) with a Cargo.toml against the stand-in crates, for the compile/execute layer.
+pub fn cmd_emit_crates(args: &[String]) {
+    let seed: u64 = arg_val(args, "--seed").and_then(|s| s.parse().ok()).unwrap_or(1);
+    let n: usize = arg_val(args, "--n").and_then(|s| s.parse().ok()).unwrap_or(8);
+    let out = arg_val(args, "--out").unwrap();
+    let shard: usize = arg_val(args, "--shard").and_then(|s| s.parse().ok()).unwrap_or(0);
+    let profile = arg_val(args, "--profile").unwrap_or("rich".into());
+    let mut rng = Rng::new(seed.wrapping_mul(15485863).wrapping_add(shard as u64));
+    let prof = match profile.as_str() {
+        "safe" => Profile::safe(),
+        "wild" => Profile::wild(),
+        "tame" => Profile::tame(),
+        _ => Profile::rich(),
+    };
+    let mut ctx = Ctx::new(&format!("crates{}", shard));
+    let mut index = std::io::BufWriter::new(std::fs::File::create(format!("{}/index_{}.txt", out, shard)).unwrap());
+    let mut known = std::io::BufWriter::new(std::fs::File::create(format!("{}/known_{}.txt", out, shard)).unwrap());
+    let mut specs: Vec<(usize, Spec, Cfg)> = vec![];
+    if shard == 0 {
+        for (i, s) in crate::corpus::compile_corpus().into_iter().enumerate() {
+            specs.push((900000 + i, s, Cfg { name: "Petstore".into(), derives: vec![], examples: true }));
+        }
+    }
+    for i in 0..n {
+        let s = gen_spec(&mut rng, &prof);
+        let mut c = gen_cfg(&mut rng, prof.hard_names);
+        // derive paths would need their crates; the compile layer keeps to derives available everywhere
+        c.derives.retain(|d| ["PartialEq", "  PartialEq  "].contains(&d.as_str()));
+        c.derives.truncate(1);
+        c.examples = true;
+        specs.push((shard * 100000 + i, s, c));
+    }
+    for (id, spec, cfg) in &specs {
+        let sp = ctx.spec_file(spec);
+        let d = std::path::PathBuf::from(format!("{}/c{}", out, id));
+        let _ = std::fs::remove_dir_all(&d);
+        std::fs::create_dir_all(&d).unwrap();
+        let o = run_cli(&sp, &cfg.name, &d, true, &cfg.derives, &[], None);
+        let pkg = convert_case::Casing::to_case(&crate::eoracle::cfg_name(cfg), convert_case::Case::Snake);
+        if o.code == Some(0) {
+            let st = "/verif/standins";
+            let toml = format!(
+                "[package]\nname = \"c{id}\"\nversion = \"0.0.0\"\nedition = \"2021\"\n\n[lib]\nname = \"{pkg}\"\npath = \"src/lib.rs\"\n\n[dependencies]\nhttpclient = {{ path = \"{st}/httpclient\" }}\nhttpclient_oauth2 = {{ path = \"{st}/httpclient_oauth2\" }}\nfutures = {{ path = \"{st}/futures\" }}\nrust_decimal = {{ path = \"{st}/rust_decimal\" }}\nrust_decimal_macros = {{ path = \"{st}/rust_decimal_macros\" }}\nbase64 = {{ path = \"{st}/base64\" }}\nserde = {{ version = \"1\", features = [\"derive\"] }}\nserde_json = \"1\"\nchrono = {{ version = \"0.4.38\", features = [\"serde\"] }}\ntokio = {{ version = \"1.35\", features = [\"full\"] }}\n"
+            );
+            std::fs::write(d.join("Cargo.toml"), toml).unwrap();
+            if let Ok(oa) = catch(|| crate::hirobs::parse_openapi(spec)) {
+                if let Ok(Ok(h)) = catch(|| libninja::extractor::extract_spec(&oa)) {
+                    for (file, class, msg) in crate::coracle::expected_rejections(&h) {
+                        writeln!(known, "{}\t{}\t{}\t{}", id, file, class, msg).unwrap();
+                    }
+                }
+            }
+            writeln!(index, "{}\tok\t{}\t{} {}", id, pkg, cfg_sexp(cfg), spec_sexp(spec)).unwrap();
+        } else {
+            writeln!(index, "{}\t{}\t{}\t{} {}", id, classify_cli(&o.stderr, o.signal), pkg, cfg_sexp(cfg), spec_sexp(spec)).unwrap();
+            let _ = std::fs::remove_dir_all(&d);
+        }
+        let _ = std::fs::remove_file(&sp);
     }
 }
